@@ -106,6 +106,31 @@ func runC45(c *core.Ctx) {
 		esc, _ := q.Escape()
 		c.Check(esc == nil, "C45/marshalizer-delegates", "GogoProtoMarshalizer.Unmarshal/reset-first", fn.Pos(), "the destination is Reset() before the generated Unmarshal merges into it",
 			"the generated Unmarshal is reached without a preceding Reset(): decoding into a reused object appends to repeated fields and keeps stale values")
+		// ... and success is reported only as the outcome of the generated Unmarshal on the reset object
+		// (an all-default value encodes to zero bytes: a shortcut for an empty buffer leaves a reused
+		// destination with its old contents)
+		okRes, whyRes := true, ""
+		for _, r := range core.Returns(fn) {
+			if !core.SuccessReturn(r, nil) {
+				continue
+			}
+			call, isCall := core.RetErrOperand(r).(*ssa.Call)
+			if !isCall || !isInvoke(&call.Call, "Unmarshal") {
+				okRes, whyRes = false, "a return that can report success at "+c.P.Pos(r.Pos())+" is not the result of the generated Unmarshal"
+				continue
+			}
+			reset := false
+			core.Instrs(fn, func(in ssa.Instruction) {
+				if cc := core.CallOf(in); cc != nil && isInvoke(cc, "Reset") && cc.Value == call.Call.Value && core.DominatesInstr(in, call) {
+					reset = true
+				}
+			})
+			if !reset {
+				okRes, whyRes = false, "the object decoded into is not the one that was Reset()"
+			}
+		}
+		c.Check(okRes, "C45/marshalizer-delegates", "GogoProtoMarshalizer.Unmarshal/success-is-decode-of-reset-object", fn.Pos(),
+			"every success return is msg.Unmarshal(buff) on the message that was Reset()", whyRes+": decoding into a reused object can leave stale contents (an all-default value encodes to zero bytes)")
 	}
 	// every decoded big integer is a fresh object: a shared *big.Int would alias the zero-valued fields of all decoded records
 	if fn := optM(c, "data", "BigIntCaster", "Unmarshal"); fn != nil {
